@@ -2045,12 +2045,15 @@ impl<const N: usize, T> Default for CircularBuffer<N, T> {
 }
 
 impl<const N: usize, const M: usize, T> From<[T; M]> for CircularBuffer<N, T> {
-    fn from(mut arr: [T; M]) -> Self {
+    fn from(arr: [T; M]) -> Self {
+        // The elements of `arr` are moved out or destroyed by hand below; `ManuallyDrop` makes
+        // sure that they are never destroyed a second time, not even if a destructor panics
+        let mut arr = mem::ManuallyDrop::new(arr);
         #[cfg(feature = "unstable")]
         let mut elems = [const { MaybeUninit::uninit() }; N];
         #[cfg(not(feature = "unstable"))]
         let mut elems = unsafe { MaybeUninit::<[MaybeUninit<T>; N]>::uninit().assume_init() };
-        let arr_ptr = &arr as *const T as *const MaybeUninit<T>;
+        let arr_ptr = arr.as_ptr() as *const MaybeUninit<T>;
         let elems_ptr = &mut elems as *mut MaybeUninit<T>;
         let size = if N >= M { M } else { N };
 
@@ -2066,12 +2069,11 @@ impl<const N: usize, const M: usize, T> From<[T; M]> for CircularBuffer<N, T> {
         // Prevent destructors from running on those elements that we've taken ownership of; only
         // destroy the elements that were discareded
         //
-        // SAFETY: All elements in `arr` are initialized; `forget` will make sure that destructors
+        // SAFETY: All elements in `arr` are initialized; `ManuallyDrop` makes sure that destructors
         // are not run twice
         unsafe {
             ptr::drop_in_place(&mut arr[..M - size]);
         }
-        mem::forget(arr);
 
         Self {
             size,
